@@ -658,9 +658,6 @@ Proof.
 Qed.
 
 (* ------------------------------------------------------------------ the merge, for every heap *)
-Definition kidchans (h : heap) (c2 : nat) : list nat :=
-  flat_map (fun k => n_chans (nd h k)) (n_children (nd h c2)).
-Definition ckey (h : heap) (c : nat) : panel * string := (c_panel (ch h c), c_label (ch h c)).
 
 (* i: the local composite; c2: the copy that came back (a separate object graph) *)
 Record merge_pre (h : heap) (i c2 : nat) : Prop := mkMP {
@@ -1002,7 +999,6 @@ Qed.
 
 (* ------------------------------------------------------------------ the hypotheses, decidably (for examples and for
    checking that the states the harness reflects meet them) *)
-Definition key_eqb (a b : panel * string) : bool := panel_eqb (fst a) (fst b) && String.eqb (snd a) (snd b).
 Lemma key_eqb_eq a b : key_eqb a b = true <-> a = b.
 Proof.
   destruct a as [p s], b as [q t]. unfold key_eqb; simpl. rewrite andb_true_iff, String.eqb_eq. split.
@@ -1024,26 +1020,9 @@ Proof.
   intros I. apply (memb_In eqb spec) in I. rewrite I in E1. discriminate.
 Qed.
 
-Definition notin (x : nat) (l : list nat) : bool := negb (memn x l).
 Lemma notin_spec x l : notin x l = true <-> ~ In x l.
 Proof. unfold notin. rewrite negb_true_iff. apply memn_false. Qed.
 
-Definition merge_preb (h : heap) (i c2 : nat) : bool :=
-  let kids := n_children (nd h c2) in
-  let origs := n_chans (nd h i) in
-  let news := n_chans (nd h c2) in
-  let KS := kidchans h c2 in
-  negb (Nat.eqb i c2) && notin c2 kids && notin i kids &&
-  forallb (fun k => negb (Nat.eqb k i) && negb (Nat.eqb k c2) && notin k kids) (n_children (nd h i)) &&
-  forallb (fun k => match n_parent (nd h k) with Some p => Nat.eqb p c2 | None => false end) kids &&
-  forallb (fun a => forallb (fun b => memn b KS) (c_conns (ch h a))) KS &&
-  forallb (fun o => notin o KS && notin o news) origs &&
-  forallb (fun n => notin n KS) news &&
-  forallb (fun o => forallb (fun x => notin x KS && notin x news && notin x origs) (c_conns (ch h o))) origs &&
-  forallb (fun o => forallb (fun x => negb (memn o (c_conns (ch h x))) || memn x (c_conns (ch h o)))
-                            (map fst (h_chans h))) origs &&
-  forallb (fun o => match find_chan h c2 (c_panel (ch h o)) (c_label (ch h o)) with Some _ => true | None => false end) origs &&
-  nodupb key_eqb (map (ckey h) origs).
 
 Lemma assoc_none_notin {B} k (l : list (nat * B)) : ~ In k (map fst l) -> assoc Nat.eqb k l = None.
 Proof.
